@@ -646,6 +646,7 @@ func OpenWith(path, tsFile string, nLog, hLog, cLog appendable.Appendable, opts 
 
 	var validatedCLogEntry *cLogEntry
 	discardedCLogEntries := 0
+	initialCLogSize := cLogSize
 
 	// checksum validation up to latest synced entry
 	for cLogSize > 0 {
@@ -733,6 +734,21 @@ func OpenWith(path, tsFile string, nLog, hLog, cLog appendable.Appendable, opts 
 	err = t.cLog.SetOffset(t.committedLogSize)
 	if err != nil {
 		return nil, fmt.Errorf("%w: while setting initial offset of commit log for index '%s'", err, path)
+	}
+
+	if initialCLogSize > t.committedLogSize && !opts.readOnly {
+		// files are never truncated: discarded entries are wiped out, otherwise a later opening could
+		// validate them again once the nodes and history logs have grown past the sizes they refer to
+		_, _, err = t.cLog.Append(make([]byte, initialCLogSize-t.committedLogSize))
+		if err == nil {
+			err = t.cLog.Flush()
+		}
+		if err == nil {
+			err = t.cLog.SetOffset(t.committedLogSize)
+		}
+		if err != nil {
+			return nil, fmt.Errorf("%w: while wiping out discarded entries of commit log for index '%s'", err, path)
+		}
 	}
 
 	opts.logger.Infof("index '%s' {ts=%d, discarded_snapshots=%d} successfully loaded", path, t.Ts(), discardedCLogEntries)
